@@ -25,6 +25,17 @@ def impl(case):
             out[name] = {"exc": type(e).__name__, "msg": str(e)[:200]}
     chart("agenda", lambda: g.agenda())
     chart("naive", lambda: g.naive_bottom_up())
+    # the caller EDITS the charts it was handed (normalising in place, deleting entries) and asks the same object again
+    def again(f):
+        def run_():
+            z = f()
+            zero_ = common.semiring(R).zero
+            for k_ in list(z):
+                z[k_] = zero_
+            return f()
+        return run_
+    chart("agenda_again", again(lambda: g.agenda()))
+    chart("naive_again", again(lambda: g.naive_bottom_up()))
     # the same grammar object GROWN after a first evaluation: a prefix of the rule list is evaluated, the remaining
     # rules are added with `add`, and the evaluators run again (anything memoised per object must follow the rule list)
     k = case.get("split")
@@ -158,7 +169,7 @@ def run(ctx):
             if res is None or "exc" in res:
                 semantic.append(_viol(c, hs, "worker", None, None, res))
                 continue
-            for name in ("agenda", "naive") + (("agenda_grown", "naive_grown") if c.get("split") is not None else ()):
+            for name in ("agenda", "naive", "agenda_again", "naive_again") + (("agenda_grown", "naive_grown") if c.get("split") is not None else ()):
                 ch = res[name]
                 if isinstance(ch, dict):
                     semantic.append(_viol(c, hs, name, None, None, ch))
